@@ -116,6 +116,14 @@ def summarise(g, with_series=False):
         "m_flow_borehole": ghe.bhe.m_flow_borehole,
         "rb": ghe.bhe.calc_effective_borehole_resistance(),
     }
+    if hasattr(s, "coordinates_domain"):
+        try:
+            out["domain_counts"] = [len(x) for x in s.coordinates_domain]
+        except Exception:
+            pass
+    sp = ghe.sim_params
+    out["limits"] = {"max_eft": sp.max_EFT_allowable, "min_eft": sp.min_EFT_allowable, "max_height": sp.max_height,
+                     "min_height": sp.min_height, "max_boreholes": sp.max_boreholes, "cont": sp.continue_if_design_unmet}
     if hasattr(s, "calculated_temperatures"):
         out["calculated_temperatures"] = {str(k): v for k, v in s.calculated_temperatures.items()}
     try:
@@ -142,6 +150,13 @@ def run(cfg, outdir=None, with_series=False):
             g.prepare_results("verif", "note", "verif", "it")
             g.write_output_files(Path(outdir))
             res["outdir"] = outdir
+            res["summary_nbh"] = g.results.output_dict["ghe_system"]["number_of_boreholes"]
+        # re-simulate the returned object at the returned height (what C01/C05/C12 observe)
+        from ghedesigner.enums import TimestepType
+        ghe = g._search.ghe
+        mx, mn = ghe.simulate(method=TimestepType.HYBRID)
+        res["resim_max"], res["resim_min"] = mx, mn
+        res["resim_excess"] = ghe.cost(mx, mn)
     except Exception as ex:  # the exception class is part of what several properties observe
         res = {"ok": False, "exc": type(ex).__name__, "msg": str(ex)[:300]}
         g = None
